@@ -122,7 +122,7 @@ def programs(tier, seed):
     chains = [c for c in T.universe("quick", 0) if len(c.connectors) <= 1]
     if tier == "quick":
         chains = random.Random(seed).sample(chains, 10)
-    progs = [("chain:" + c.name, {"p.py": c.render()}, "python", {}) for c in chains]
+    progs = [("chain:" + c.name, c.files(), "python", {}) for c in chains]
     progs += [("special:" + n, {"p.py": s}, "python", OWN_CONFIGS.get("special:" + n, {})) for n, s in SPECIAL.items()]
     progs += [("project:" + n, p["files"], p["lang"], dict(p["configs"], _entry=p.get("entry"))) for n, p in PROJECTS.items()]
     return progs
